@@ -63,8 +63,8 @@ func checkChangeDetectionComplete(c *Ctx, rule string, anchors []string) {
 			if cmpFn == nil || !IsProd(cmpFn) || len(cmpFn.Blocks) == 0 {
 				continue
 			}
-			elem := comparedRecord(cmpFn)
-			if elem == nil {
+			pairs := pairComparators(cmpFn, 0)
+			if len(pairs) == 0 {
 				continue
 			}
 			eq := blk.Succs[0]
@@ -90,22 +90,25 @@ func checkChangeDetectionComplete(c *Ctx, rule string, anchors []string) {
 			if path == nil {
 				continue
 			}
-			id := FuncKey(fn) + " ⇒ " + FuncKey(cmpFn)
-			if seen[id] {
-				continue
-			}
-			seen[id] = true
-			n++
-			stored := taggedFields(elem)
-			read := fieldsRead(cmpFn, elem, 0)
-			var missing []string
-			for _, s := range stored {
-				if !read[s] {
-					missing = append(missing, s)
+			for _, cmpFn := range pairs {
+				elem := comparedRecord(cmpFn)
+				id := FuncKey(fn) + " ⇒ " + FuncKey(cmpFn)
+				if seen[id] {
+					continue
 				}
+				seen[id] = true
+				n++
+				stored := taggedFields(elem)
+				read := fieldsRead(cmpFn, elem, 0)
+				var missing []string
+				for _, s := range stored {
+					if !read[s] {
+						missing = append(missing, s)
+					}
+				}
+				sort.Strings(missing)
+				c.Require(rule, id, p.InstrPos(first), "a comparison that lets the update be skipped reads every stored field of the compared records", len(missing) == 0, fmt.Sprintf("record %s: stored fields %v; not compared: %v", elem.Obj().Name(), stored, missing))
 			}
-			sort.Strings(missing)
-			c.Require(rule, id, p.InstrPos(first), "a comparison that lets the update be skipped reads every stored field of the compared records", len(missing) == 0, fmt.Sprintf("record %s: stored fields %v; not compared: %v", elem.Obj().Name(), stored, missing))
 		}
 	}
 	c.MinInstances(rule, n, 1)
@@ -187,6 +190,30 @@ func fieldsRead(fn *ssa.Function, rec *types.Named, depth int) map[string]bool {
 				}
 			}
 		}
+	}
+	return out
+}
+
+// pairComparators: fn itself when it compares two values of one record (or list-of-records)
+// type — receiver and first argument of identical type — else the pair comparators among
+// the own functions it calls (a helper such as params.unchanged(validators, …) that
+// compares a stored record with raw inputs delegates the list comparison).
+func pairComparators(fn *ssa.Function, depth int) []*ssa.Function {
+	if fn == nil || depth > 2 || len(fn.Blocks) == 0 || !IsProd(fn) {
+		return nil
+	}
+	if len(fn.Params) >= 2 && types.Identical(fn.Params[0].Type(), fn.Params[1].Type()) && comparedRecord(fn) != nil {
+		return []*ssa.Function{fn}
+	}
+	var out []*ssa.Function
+	seen := map[*ssa.Function]bool{}
+	for _, call := range AllCallsDeep(fn) {
+		g := call.Common().StaticCallee()
+		if g == nil || seen[g] || g == fn {
+			continue
+		}
+		seen[g] = true
+		out = append(out, pairComparators(g, depth+1)...)
 	}
 	return out
 }
